@@ -19,6 +19,9 @@ import traceback
 import numpy as np
 
 POISONS = ["5A", "A5", "FF", "nodata", "nan", "stale", "00"]
+# second call of an njit program on strided views (costs one more numba specialisation per
+# program, hence thorough tier only)
+STRIDED_NJIT = os.environ.get("C14_STRIDED_NJIT") == "1"
 
 
 def sha_arrays(arrs):
@@ -40,26 +43,56 @@ def flatten_result(r):
     return [np.asarray(r)]
 
 
+GUARD = 16  # guard elements on each side of the last axis
+CANARY = 0xCD
+
+
+def _pattern_scalar(byte, dtype):
+    return np.frombuffer(bytes([byte]) * np.dtype(dtype).itemsize, dtype=dtype)[0]
+
+
 def poison(buf, kind, nodata=-3000):
+    """Fill a (possibly strided) view with a dirty pattern."""
     if kind == "stale":
         return False
-    raw = buf.view("uint8").reshape(-1) if buf.ndim else buf.reshape(1).view("uint8")
-    if kind == "5A":
-        raw[:] = 0x5A
-    elif kind == "A5":
-        raw[:] = 0xA5
-    elif kind == "FF":
-        raw[:] = 0xFF
-    elif kind == "00":
-        raw[:] = 0
+    if kind in ("5A", "A5", "FF", "00"):
+        buf[...] = _pattern_scalar(int(kind, 16), buf.dtype)
     elif kind == "nodata":
         buf[...] = np.array(255 if buf.dtype.kind == "u" else nodata).astype(buf.dtype, casting="unsafe")
     elif kind == "nan":
-        if buf.dtype.kind == "f":
-            buf[...] = np.nan
-        else:
-            raw[:] = 0x7F
+        buf[...] = np.nan if buf.dtype.kind == "f" else _pattern_scalar(0x7F, buf.dtype)
     return True
+
+
+class Buf:
+    """An output buffer carved out of a larger allocation: guard bands before and after the last
+    axis (and, for strided views, the gaps between the elements) hold a canary pattern."""
+
+    __slots__ = ("base", "view", "stride")
+
+    def __init__(self, shape, dtype, stride):
+        shape = tuple(shape)
+        inner = shape[-1] if shape else 1
+        lead = shape[:-1] if shape else ()
+        self.stride = stride
+        self.base = np.empty(lead + (2 * GUARD + inner * stride,), dtype=dtype)
+        self.base.view("uint8")[...] = CANARY
+        v = self.base[..., GUARD : GUARD + inner * stride : stride]
+        self.view = v.reshape(()) if shape == () else v
+
+    def prepare(self, kind):
+        keep = self.view.copy() if kind == "stale" else None
+        self.base.view("uint8")[...] = CANARY
+        if keep is not None:
+            self.view[...] = keep
+        else:
+            poison(self.view, kind)
+
+    def guards_intact(self):
+        chk = self.base.copy()
+        inner = self.view.shape[-1] if self.view.shape else 1
+        chk[..., GUARD : GUARD + inner * self.stride : self.stride] = _pattern_scalar(CANARY, chk.dtype)
+        return bool((chk.view("uint8") == CANARY).all())
 
 
 class BufferPool:
@@ -69,19 +102,33 @@ class BufferPool:
         self.pool = {}
         self.reused = 0
         self.fresh = 0
+        self.strided = 0
 
     def get(self, shape, dtype, rng, exclude=()):
-        key = (tuple(shape), str(dtype))
+        stride = 2 if (len(tuple(shape)) >= 1 and rng.random() < 0.3) else 1
+        key = (tuple(shape), str(dtype), stride)
         lst = self.pool.setdefault(key, [])
         cands = [b for b in lst if not any(b is e for e in exclude)]
+        if stride == 2:
+            self.strided += 1
         if cands and rng.random() < 0.7:
             self.reused += 1
             return cands[rng.randrange(len(cands))]
-        b = np.empty(shape, dtype=dtype)
+        b = Buf(shape, dtype, stride)
         self.fresh += 1
         if len(lst) < 4:
             lst.append(b)
         return b
+
+
+def strided_copy(a):
+    """Same values, every other element of a twice-as-long last axis; gaps hold a loud value."""
+    if not isinstance(a, np.ndarray) or a.ndim < 1 or a.shape[-1] < 1:
+        return a, None
+    base = np.empty(a.shape[:-1] + (2 * a.shape[-1],), dtype=a.dtype)
+    base[...] = 1e30 if a.dtype.kind == "f" else np.array(12345).astype(a.dtype, casting="unsafe")
+    base[..., ::2] = a
+    return base[..., ::2], base
 
 
 def arg_digest(args):
@@ -149,20 +196,34 @@ def call_program(prog, fn, d, pool, rng, poisons=None):
         shas = []
         excs = []
         used = []
-        for pk in (pa, pb):
+        # first call: strided views of the array arguments (same values), second: as generated
+        sargs, sbases = [], []
+        for a in args:
+            v, b = strided_copy(a) if rng.random() < 0.5 else (a, None)
+            sargs.append(v)
+            sbases.append(b)
+        gap_before = [sha_arrays([b[..., 1::2]]) if b is not None else None for b in sbases]
+        for call_no, pk in enumerate((pa, pb)):
             outs = []
             for shape, dtype in d["outs"]:
                 b = pool.get(shape, dtype, rng, exclude=used + outs)
                 outs.append(b)
             for b in outs:
-                if poison(b, pk):
-                    pass
+                b.prepare(pk)
                 res["dirty"] += 1
             used.extend(outs)
-            o = tuple(outs) if len(outs) > 1 else outs[0]
-            _, exc = guarded(lambda: fn(*args, out=o))
+            views = [b.view for b in outs]
+            o = tuple(views) if len(views) > 1 else views[0]
+            cargs = sargs if call_no == 0 else args
+            _, exc = guarded(lambda: fn(*cargs, out=o))
             excs.append(exc)
-            shas.append(sha_arrays(outs) if exc is None else None)
+            shas.append(sha_arrays(views) if exc is None else None)
+            for bi, b in enumerate(outs):
+                if not b.guards_intact():
+                    viol.append(("write-outside-output", f"output #{bi}: bytes outside the output array (guard band / stride gaps) were overwritten"))
+        gap_after = [sha_arrays([b[..., 1::2]]) if b is not None else None for b in sbases]
+        if gap_before != gap_after:
+            viol.append(("write-outside-input", "bytes between the elements of a strided input view were overwritten"))
         # third call: numpy allocates the outputs itself (perturbed malloc decides their content)
         r3, exc3 = guarded(lambda: fn(*args))
         excs.append(exc3)
@@ -171,17 +232,18 @@ def call_program(prog, fn, d, pool, rng, poisons=None):
             if exc is not None and exc[0] == "IndexError":
                 viol.append(("index-out-of-bounds", f"IndexError: {exc[1]}"))
                 break
-        if not viol:
+        if not any(v[0] == "index-out-of-bounds" for v in viol):
             if len({e is not None for e in excs}) > 1:
                 viol.append(("outcome-depends-on-buffer-content", f"exceptions differ between identical calls: {excs}"))
             elif excs[0] is None and len(set(shas)) > 1:
-                which = "poisons %s/%s" % (pa, pb) if shas[0] != shas[1] else "caller buffer vs numpy-allocated buffer"
+                which = "poisons %s/%s (first call on strided views)" % (pa, pb) if shas[0] != shas[1] else "caller buffer vs numpy-allocated buffer"
                 viol.append(("output-depends-on-buffer-content", f"identical calls returned different output bytes ({which}): an output cell is not written or an out-of-range/uninitialised value is read"))
         res["sha"] = shas[0] if excs[0] is None else None
         res["exc"] = "raises" if excs[0] else None
     else:
         r1, e1 = guarded(lambda: fn(*args))
-        r2, e2 = guarded(lambda: fn(*args))
+        args2 = [strided_copy(a)[0] for a in args] if STRIDED_NJIT and rng.random() < 0.5 else args
+        r2, e2 = guarded(lambda: fn(*args2))
         s1 = sha_arrays(flatten_result(r1)) if e1 is None else None
         s2 = sha_arrays(flatten_result(r2)) if e2 is None else None
         for exc in (e1, e2):
@@ -318,6 +380,7 @@ def run_group(seed, group_names, budget_s, nb_cap, max_calls, out_path, repo):
         "dirty_buffers": dirty,
         "buffers_reused": pool.reused,
         "buffers_fresh": pool.fresh,
+        "buffers_strided": pool.strided,
         "repeats": repeats,
         "tuples": sorted(tuples),
         "records": records,
